@@ -271,6 +271,9 @@ func (d *diff) getRange(r Range) (rr RangeResult) {
 
 // Ranges calculates given ranges and return results
 func (d *diff) Ranges(ctx context.Context, ranges []Range, resBuf []RangeResult) (results []RangeResult, err error) {
+	if err = checkRanges(ranges); err != nil {
+		return nil, err
+	}
 	d.mu.RLock()
 	defer d.mu.RUnlock()
 
@@ -279,6 +282,26 @@ func (d *diff) Ranges(ctx context.Context, ranges []Range, resBuf []RangeResult)
 		results = append(results, d.getRange(r))
 	}
 	return
+}
+
+// ErrRangesOverlap is returned for a request whose ranges are, taken together, wider than the whole hash space.
+var ErrRangesOverlap = errors.New("ldiff: ranges overlap")
+
+// checkRanges rejects requests that can only have been built to multiply the answer: the ranges a Diff sends never
+// overlap, so their widths add up to at most the hash space, and the elements returned to at most the container.
+func checkRanges(ranges []Range) error {
+	var total uint64
+	for _, r := range ranges {
+		if r.To < r.From {
+			continue
+		}
+		width := r.To - r.From
+		if total+width < total {
+			return ErrRangesOverlap
+		}
+		total += width
+	}
+	return nil
 }
 
 type diffCtx struct {
